@@ -413,4 +413,79 @@ example : (loadFull genPieces
        data := [[[[1, 2], [3, 4], [5, 6]], [[7, 8], [9, 10], [11, 12]]]] } : Img Nat) false 1 1 2).toOption.map
       (fun b => (b.data, b.naxis2, b.crpix2)) = some ([[9, 10], [11, 12]], 2, 1) := by decide
 
+
+/-! ### The file level: the requested HDU, and BSCALE -/
+
+def genFilePieces : FilePieces :=
+  { extHeader := extHeader, extData := extData, extCmp := extCmp, scaled := scaled }
+
+/-- **ext_consistent**: header and pixels are both taken from the requested HDU; the expanded image is HDU 0 of what
+    `expand` returns -/
+theorem ext_consistent (hdu : Nat) : extHeader hdu = hdu ∧ extData hdu = hdu ∧ extCmp hdu = 0 := by
+  simp [extHeader, extData, extCmp, extHeaderHand, extDataHand, extCmpHand]
+
+/-- **scaled_spec**: the stored value is multiplied by BSCALE exactly when the card is present -/
+theorem scaled_spec (x v : Nat) : scaled 1 x v = x * v ∧ scaled 0 x 1 = x := by
+  simp [scaled, scaledHand]
+
+/-- what BSCALE promises: physical value = stored value × BSCALE -/
+def physical (bscale : Option Nat) (b : FullBand Nat) : FullBand Nat :=
+  match bscale with
+  | some v => { b with data := b.data.map (fun r => r.map (fun x => x * v)) }
+  | none => b
+
+theorem applyScale_eq (bscale : Option Nat) (b : FullBand Nat) : applyScale genFilePieces bscale b = physical bscale b := by
+  cases bscale with
+  | none =>
+    have h : (fun x => scaled 0 x 1) = (fun x : Nat => x) := by funext x; exact (scaled_spec x 1).2
+    simp [applyScale, physical, genFilePieces, h]
+  | some v =>
+    have h : (fun x => scaled 1 x v) = (fun x : Nat => x * v) := by funext x; exact (scaled_spec x v).1
+    simp [applyScale, physical, genFilePieces, h]
+
+/-- **full_file_plain**: on an uncompressed HDU the file-level function is the image-level function on the REQUESTED
+    HDU (header and pixels), followed by the BSCALE multiplication — whatever the other HDUs of the file hold -/
+theorem full_file_plain (file expanded : List FHdu) (hdu cube : Nat) (fh : FHdu) (i n : Nat) (hi : i < n)
+    (hf : file[hdu]? = some fh) (hc : fh.compressed = false) :
+    loadFullFile genPieces genFilePieces file expanded hdu cube i n =
+      (match loadFull genPieces fh.img false cube i n with
+       | .error e => .error e
+       | .ok b => .ok (physical fh.bscale b)) := by
+  have hg : Gen.C20.guard (i : Int) (n : Int) = 0 := (guard_accepts_iff _ _).2 ⟨by omega, by omega⟩
+  obtain ⟨e1, e2, _⟩ := ext_consistent hdu
+  unfold loadFullFile
+  simp only [genPieces, genFilePieces] at *
+  simp only [hg, ne_eq, not_true_eq_false, ↓reduceIte, e1, e2, hf, hc, Bool.false_eq_true]
+  cases h : loadFull genPieces fh.img false cube i n with
+  | error e => simp [genPieces] at h; simp [h]
+  | ok b =>
+    simp [genPieces] at h; simp [h]
+    exact applyScale_eq fh.bscale b
+
+/-- **full_file_only_requested_hdu**: two files that agree on HDU `hdu` give the same band -/
+theorem full_file_only_requested_hdu (f1 f2 ex1 ex2 : List FHdu) (hdu cube : Nat) (fh : FHdu) (i n : Nat) (hi : i < n)
+    (h1 : f1[hdu]? = some fh) (h2 : f2[hdu]? = some fh) (hc : fh.compressed = false) :
+    loadFullFile genPieces genFilePieces f1 ex1 hdu cube i n = loadFullFile genPieces genFilePieces f2 ex2 hdu cube i n := by
+  rw [full_file_plain f1 ex1 hdu cube fh i n hi h1 hc, full_file_plain f2 ex2 hdu cube fh i n hi h2 hc]
+
+/-- **full_file_compressed**: on a compressed HDU the band is cut from HDU 0 of the expanded file, with no BSCALE step -/
+theorem full_file_compressed (file expanded : List FHdu) (hdu cube : Nat) (fh e : FHdu) (i n : Nat) (hi : i < n)
+    (hf : file[hdu]? = some fh) (hc : fh.compressed = true) (he : expanded[0]? = some e) :
+    loadFullFile genPieces genFilePieces file expanded hdu cube i n = loadFull genPieces e.img true cube i n := by
+  have hg : Gen.C20.guard (i : Int) (n : Int) = 0 := (guard_accepts_iff _ _).2 ⟨by omega, by omega⟩
+  obtain ⟨e1, _, e3⟩ := ext_consistent hdu
+  unfold loadFullFile
+  simp only [genPieces, genFilePieces] at *
+  simp only [hg, ne_eq, not_true_eq_false, ↓reduceIte, e1, e3, hf, hc, he]
+
+/-- **full_file_promise**: the property's statement at file level, for a well-formed uncompressed image HDU: band i of n
+    is rows [rowMin, rowMax) of the requested plane of the requested HDU in physical units, with NAXIS2' / CRPIX2' as
+    promised -/
+theorem full_file_promise (file expanded : List FHdu) (hdu cube : Nat) (fh : FHdu) (plane : List (List Nat)) (i n : Nat)
+    (hi : i < n) (hf : file[hdu]? = some fh) (hc : fh.compressed = false) (hw : WF fh.img)
+    (hp : planeOf fh.img cube = some plane) :
+    loadFullFile genPieces genFilePieces file expanded hdu cube i n
+      = .ok (physical fh.bscale (promised plane fh.img.crpix2 i n)) := by
+  rw [full_file_plain file expanded hdu cube fh i n hi hf hc, full_plain fh.img cube plane i n hi hw hp]
+
 end Aegean.Properties.C20
